@@ -6,6 +6,7 @@ CONSTANTS
   HiMod = 2
   LoMod = 2
   Retain = 2
+  NoLeader = noleader
   MaxPerTask = 2
   MaxTotal = 4
   Cap = 2
